@@ -69,9 +69,15 @@ def run_wt(pid, x, prop=None, tier="quick"):
     dst = os.path.join(VERIF, "seeded", "%s-%s" % (pid, x))
     wt = "/tmp/seed/" + pid
     sh("git checkout -- .", cwd=wt)
+    # bring the scratch worktree to /repo's current HEAD (fix: commits may have landed since the seed was written)
+    rc0, head = sh(["git", "-C", "/repo", "rev-parse", "HEAD"])
+    sh(["git", "checkout", "-q", "--detach", head.strip()], cwd=wt)
     rca, oa = sh(["git", "apply", os.path.join(dst, "patch.diff")], cwd=wt)
     if rca != 0:
+        rca, oa = sh("patch -p1 --fuzz=3 --no-backup-if-mismatch < %s" % os.path.join(dst, "patch.diff"), cwd=wt)
+    if rca != 0:
         print("patch does not apply:", oa)
+        sh("git checkout -- .", cwd=wt)
         return 2
     try:
         rc, o = sh([os.path.join(VERIF, "check"), prop, "--tier", tier], cwd=VERIF, timeout=3600, env={"PYREALB_REPO": wt})
